@@ -241,7 +241,7 @@ def optf(x):
 
 
 # ---------------------------------------------------------------- operations
-def do_replace(f, text):
+def choose_replace(f):
     atoms = list(f.atoms)
     r = rng.random()
     if r < 0.12 or not atoms:
@@ -268,6 +268,12 @@ def do_replace(f, text):
     if tgt is src and rng.random() < 0.8:
         tgt = pick_atom(True)
     portion = rng.choice([0, 1, 0.5, 0.25, 1.0, 0.0, round(rng.uniform(0, 1), rng.randint(1, 3)), rng.random()])
+    return src, tgt, portion
+
+
+def do_replace(f, text, forced=None):
+    src, tgt, portion = forced or choose_replace(f)
+    atoms = list(f.atoms)
     pk = "0" if portion == 0 else "1" if portion == 1 else "0.5" if portion == 0.5 else "0.25" if portion == 0.25 else "other"
     stats["portion"][pk] = stats["portion"].get(pk, 0) + 1
     present = src in atoms
@@ -448,6 +454,17 @@ def direct_tags():
 
 
 direct_tags()
+
+# the witnesses of the refuted statements and a few documented examples, replayed first
+H, D, O = PUB[1], PUB[1][2], PUB[8]
+for s0, src0, tgt0, p0 in [("H2O", H, D, 1), ("H2O@1", H, H, 1), ("HD", H, D, 1), ("H2O@1", H, D, 1), ("H2O@1", H, D, 0.5),
+                           ("D2O@1n", D, H, 1), ("H2O@1", PUB[6], D, 1), ("H2O", PUB[6], D, 0.5), ("H2O@1", H, O, 1),
+                           ("Fe[56]{2+}O{2-}@5.7", PUB[26][56].ion[2], PUB[26].ion[2], 0.25), ("H2O@1", H, H, 0.5)]:
+    f0 = formula(s0)
+    t0 = "f = formula(%r)" % s0
+    obs0 = read_obs(f0)
+    op0, res0, t1 = do_replace(f0, t0, forced=(src0, tgt0, p0))
+    emit("replace-witness", "(SrcString %s)" % cstr(s0), None, None, [], op0, obs0, res0, t1)
 
 while len(cases) < ncase:
     k = len(cases) % 10
